@@ -5,8 +5,9 @@
 (* built step by step.                                                     *)
 (*                                                                         *)
 (* A behaviour is: the source of a module is written class by class        *)
-(* (DefClass, DefField, EndClass: a linear inheritance chain, class i+1    *)
-(* derives from class i); at EndClass two things happen, as in reality:    *)
+(* (DefClass, DefField, EndClass: a single-inheritance hierarchy, class i   *)
+(* derives from an earlier class chain[i].base: a linear chain or a tree   *)
+(* with siblings); at EndClass two things happen, as in reality:           *)
 (*   - Griffe's visitor records the members of the class (VisitClass:      *)
 (*     transcription of Visitor.handle_attribute / visit_functiondef /     *)
 (*     decorators_to_labels as far as the extension looks at them);        *)
@@ -114,7 +115,10 @@ HdrsKw   == {H(TRUE, "u", k, FALSE) : k \in Flag}
 \* hdrs[i]: headers at level i; names[i]: names a field of class i >= 2 may take (class 1 uses a, b, c in order)
 N3 == {"a", "b", "c"}
 Core == {"ann", "annval", "fkwT", "fkwFd", "finitF", "classvarN", "initvar", "prop", "unann", "kwonly"}
-D(nc, nf, forms, hdrs, names) == [mode |-> "enum", nc |-> nc, nf |-> nf, forms |-> forms, hdrs |-> hdrs, names |-> names]
+\* bases[i]: classes class i may derive from (0 = no base); Chain = every class derives from the previous one
+Chain == <<{0}, {1}, {2}>>
+DB(nc, nf, forms, hdrs, names, bases) == [mode |-> "enum", nc |-> nc, nf |-> nf, forms |-> forms, hdrs |-> hdrs, names |-> names, bases |-> bases]
+D(nc, nf, forms, hdrs, names) == DB(nc, nf, forms, hdrs, names, Chain)
 \* -- one class
 Dom_single2 == D(1, <<2, 0, 0>>, <<AllForms, {}, {}>>, <<HdrsSingle, {}, {}>>, <<N3, {}, {}>>)
 Dom_single3q == D(1, <<3, 0, 0>>, <<{"ann", "annval", "ffac", "fkwT", "fkwF", "fkwFd", "finitF", "kwonly", "classvarN", "initvarD"}, {}, {}>>,
@@ -141,25 +145,34 @@ Dom_pairhdr == D(2, <<1, 1, 0>>, <<{"ann", "annval", "fkwT", "fkwFd", "classvarN
 TripleHdrs == {H(TRUE, "u", "u", FALSE), H(TRUE, "F", "u", FALSE), H(FALSE, "u", "u", FALSE), H(FALSE, "u", "u", TRUE)}
 Dom_triple_q == D(3, <<1, 1, 1>>, <<{"ann", "annval", "fkwT", "classvarN"}, {"ann", "annval", "fkwT", "classvarN"},
                                     {"ann", "annval", "fkwT", "classvarN"}>>,
-                  <<TripleHdrs, TripleHdrs, TripleHdrs>>, <<N3, {"a", "b"}, {"a", "b"}>>)
+                  <<TripleHdrs, TripleHdrs, TripleHdrs>>, <<N3, {"a", "b"}, {"a"}>>)
 TripleForms == {"ann", "annval", "fkwT", "finitF", "classvarN", "initvar", "prop"}
+\* -- a tree: two classes deriving from the same first class (siblings share the ancestor's cached parameters)
+Dom_tree_q == DB(3, <<1, 1, 1>>, <<{"ann", "annval", "fkwT"}, {"ann", "annval", "fkwT", "classvarN"}, {"ann", "annval", "fkwT", "classvarN"}>>,
+                 <<{H(TRUE, "u", "u", FALSE), H(TRUE, "u", "u", TRUE), H(FALSE, "u", "u", FALSE)},
+                   {H(TRUE, "u", "u", FALSE), H(FALSE, "u", "u", FALSE)},
+                   {H(TRUE, "u", "u", FALSE), H(FALSE, "u", "u", FALSE), H(FALSE, "u", "u", TRUE)}>>,
+                 <<N3, {"a", "b"}, {"a", "b", "c"}>>, <<{0}, {1}, {1}>>)
+Dom_tree_t == DB(3, <<1, 1, 1>>, <<TripleForms, TripleForms, TripleForms \cup {"kwonly"}>>,
+                 <<TripleHdrs \cup {HA(TRUE, "u", "u")}, TripleHdrs, TripleHdrs>>, <<N3, {"a", "b"}, {"a", "b", "c"}>>, <<{0}, {1}, {1}>>)
 Dom_triple_t == D(3, <<1, 1, 1>>, <<TripleForms, TripleForms, TripleForms \cup {"kwonly"}>>,
                   <<TripleHdrs \cup {HA(TRUE, "u", "u")}, TripleHdrs \cup {HA(TRUE, "u", "u")}, TripleHdrs>>, <<N3, {"a", "b"}, {"a", "b"}>>)
 \* "target": the programs are not enumerated but read from the JSON file named by the environment variable
 \* C18_TARGETS (a list of chains written by the driver: seeded random programs beyond the enumerated bounds,
 \* counterexamples of witness runs, stored replay cases); TLC then only evaluates Impl and the reference on them.
 Dom_target  == [mode |-> "target", nc |-> 0, nf |-> <<0, 0, 0>>, forms |-> <<{}, {}, {}>>, hdrs |-> <<{}, {}, {}>>,
-                names |-> <<{}, {}, {}>>]
+                names |-> <<{}, {}, {}>>, bases |-> <<{}, {}, {}>>]
 Targets == JsonDeserialize(IOEnv.C18_TARGETS)
 DomOf(d) == CASE d = "single2" -> Dom_single2 [] d = "single3q" -> Dom_single3q [] d = "single3" -> Dom_single3
               [] d = "single4" -> Dom_single4 [] d = "pair_w" -> Dom_pair_w [] d = "pair_q" -> Dom_pair_q
               [] d = "pair_m" -> Dom_pair_m [] d = "pair_t" -> Dom_pair_t [] d = "pairhdr" -> Dom_pairhdr
               [] d = "triple_q" -> Dom_triple_q [] d = "triple_t" -> Dom_triple_t [] d = "target" -> Dom_target
+              [] d = "tree_q" -> Dom_tree_q [] d = "tree_t" -> Dom_tree_t
 
 \* ---------------------------------------------------------------------------------------------
 \* State
 \* ---------------------------------------------------------------------------------------------
-VARIABLES chain,     \* the source so far: Seq([hdr, fields: Seq([name, form])])
+VARIABLES chain,     \* the source so far: Seq([hdr, base, fields: Seq([name, form])]) in definition order
           open,      \* the last class statement is still being written
           pc,        \* "build" -> "apply" -> "done"
           wf,        \* FALSE once CPython raised TypeError while creating a class
@@ -178,6 +191,10 @@ TargetMode == dom = "target"
 N == Len(chain)
 DC(ch, i) == ch[i].hdr.dc
 Last(s) == s[Len(s)]
+\* the proper ancestors of class i, root first: reversed(class_.mro()) / cls.__mro__[-1:0:-1] (single inheritance)
+RECURSIVE AncSeq(_, _)
+AncSeq(ch, i) == IF ch[i].base = 0 THEN <<>> ELSE AncSeq(ch, ch[i].base) \o <<ch[i].base>>
+Anc(ch, i) == {AncSeq(ch, i)[x] : x \in 1..Len(AncSeq(ch, i))}
 
 \* ---------------------------------------------------------------------------------------------
 \* Defect triggers: purely syntactic predicates on the program
@@ -202,7 +219,7 @@ Tags(ch) ==
    THEN {"kwF"} ELSE {})
   \cup
   \* a dataclass below a dataclass that was declared with init=False
-  (IF \E i \in 1..n, j \in 1..n : j < i /\ DC(ch, i) /\ DC(ch, j) /\ ch[j].hdr.init = "F" /\ Len(ch[j].fields) > 0
+  (IF \E i \in 1..n : \E j \in Anc(ch, i) : DC(ch, i) /\ DC(ch, j) /\ ch[j].hdr.init = "F" /\ Len(ch[j].fields) > 0
    THEN {"pinitF"} ELSE {})
   \cup
   \* @dataclass(init=False) without hand-written __init__
@@ -215,23 +232,23 @@ Tags(ch) ==
   \* a value-less field whose name is a class attribute of an ancestor: CPython's getattr default
   (IF \E i \in 1..n : DC(ch, i) /\ \E fd \in FieldsOf(ch, i) :
           /\ fd.form \in {"ann", "initvar"}
-          /\ \E j \in 1..(i - 1) : \E gd \in FieldsOf(ch, j) : gd.name = fd.name /\ AttrAfter(gd.form) # "none"
+          /\ \E j \in Anc(ch, i) : \E gd \in FieldsOf(ch, j) : gd.name = fd.name /\ AttrAfter(gd.form) # "none"
    THEN {"inhdef"} ELSE {})
   \cup
   (IF \E i \in 1..n : DC(ch, i) /\ \E fd \in FieldsOf(ch, i) : fd.form = "annprop" THEN {"annprop"} ELSE {})
   \cup
   \* a name that is an __init__ field in one dataclass and a ClassVar / init=False field in another one of the chain
-  (IF \E i \in 1..n, j \in 1..n : j < i /\ DC(ch, i) /\ DC(ch, j) /\
+  (IF \E i \in 1..n : \E j \in Anc(ch, i) : DC(ch, i) /\ DC(ch, j) /\
          \E fd \in FieldsOf(ch, i), gd \in FieldsOf(ch, j) :
             /\ fd.name = gd.name /\ Annotated(fd.form) /\ Annotated(gd.form)
             /\ (fd.form \in NonInitForms) # (gd.form \in NonInitForms)
    THEN {"noninit"} ELSE {})
   \cup
   \* undecorated class with its own __init__ below a dataclass
-  (IF \E i \in 1..n : ~DC(ch, i) /\ ch[i].hdr.hand /\ \E j \in 1..(i - 1) : DC(ch, j) THEN {"labelhand"} ELSE {})
+  (IF \E i \in 1..n : ~DC(ch, i) /\ ch[i].hdr.hand /\ \E j \in Anc(ch, i) : DC(ch, j) THEN {"labelhand"} ELSE {})
   \cup
   \* a dataclass below a dataclass whose hand-written __init__ assigns attributes
-  (IF \E i \in 1..n, j \in 1..n : i < j /\ DC(ch, i) /\ DC(ch, j) /\ ch[i].hdr.assign THEN {"handassign"} ELSE {})
+  (IF \E j \in 1..n : \E i \in Anc(ch, j) : DC(ch, i) /\ DC(ch, j) /\ ch[i].hdr.assign THEN {"handassign"} ELSE {})
 
 \* ---------------------------------------------------------------------------------------------
 \* Griffe's visitor, as far as the extension reads its output
@@ -289,7 +306,7 @@ Decorated(ch, i) == ch[i].hdr.dc                       \* _dataclass_decorator(c
 \* does an ancestor leave a class attribute of that name (what getattr(cls, name) would find)?  Used by the
 \* "inhdef" fix only; read from the source because Griffe deletes InitVar members of processed classes.
 InheritedValue(ch, i, n) ==
-  \E j \in 1..(i - 1) : \E gd \in FieldsOf(ch, j) : gd.name = n /\ AttrAfter(gd.form) # "none"
+  \E j \in Anc(ch, i) : \E gd \in FieldsOf(ch, j) : gd.name = n /\ AttrAfter(gd.form) # "none"
 
 \* the body of `for member in class_.members.values()` in _dataclass_parameters
 RECURSIVE ScanMembers(_, _, _, _, _, _)
@@ -336,13 +353,13 @@ ReorderParameters(ps) ==
   IN SelectSeq(d, LAMBDA p : p.kind = PK) \o SelectSeq(d, LAMBDA p : p.kind = KO)
 
 \* the calls _set_dataclass_init(class k) makes to the cached _dataclass_parameters
-CalledBy(ch, i) == {j \in 1..(i - 1) : Decorated(ch, j)} \cup (IF Decorated(ch, i) THEN {i} ELSE {})
+CalledBy(ch, i) == {j \in Anc(ch, i) : Decorated(ch, j)} \cup (IF Decorated(ch, i) THEN {i} ELSE {})
 CachedParameters(ch, i) == IF cache[i].set THEN cache[i].val ELSE DataclassParameters(ch, members, i)
 
 RECURSIVE ConcatParams(_, _, _)
-ConcatParams(ch, i, upto) ==      \* for parent in reversed(mro): if decorated: parameters.extend(...)
-  IF i > upto THEN <<>>
-  ELSE (IF Decorated(ch, i) THEN CachedParameters(ch, i) ELSE <<>>) \o ConcatParams(ch, i + 1, upto)
+ConcatParams(ch, anc, x) ==      \* for parent in reversed(mro): if decorated: parameters.extend(...)   (a fresh list: the
+  IF x > Len(anc) THEN <<>>      \* cached lists of the ancestors are read, never written)
+  ELSE (IF Decorated(ch, anc[x]) THEN CachedParameters(ch, anc[x]) ELSE <<>>) \o ConcatParams(ch, anc, x + 1)
 
 \* ---------------------------------------------------------------------------------------------
 \* Reference: CPython's dataclasses module (3.12)
@@ -403,7 +420,7 @@ NonDefaultAfterDefault(std, j, seen) ==      \* the TypeError check of _init_fn
   ELSE IF seen THEN TRUE
   ELSE NonDefaultAfterDefault(std, j + 1, seen)
 
-\* class statement + decorator; pys = records of the classes created before
+\* class statement + decorator; pys = records of the ancestors of the class, root first (the last one is its base)
 ProcessClass(pys, c) ==
   LET inherited == BaseFields(pys, 1, <<>>)
       hasbase == \E b \in 1..Len(pys) : pys[b].hasfields
@@ -441,10 +458,12 @@ T == Targets[tid]
 DefClass ==        \* `@dataclass(...)` / `class Ci(Ci-1):`
   /\ pc = "build" /\ ~open /\ wf
   /\ N < (IF TargetMode THEN Len(T) ELSE Dom.nc)
-  /\ \E h \in (IF TargetMode THEN {T[N + 1].hdr} ELSE Dom.hdrs[N + 1]) :
-       LET ch == Append(chain, [hdr |-> h, fields |-> <<>>])
+  /\ \E h \in (IF TargetMode THEN {T[N + 1].hdr} ELSE Dom.hdrs[N + 1]),
+        b \in (IF TargetMode THEN {T[N + 1].base} ELSE Dom.bases[N + 1]) :
+       LET ch == Append(chain, [hdr |-> h, base |-> b, fields |-> <<>>])
            t == Tags(ch)
-       IN /\ t \subseteq Allow
+       IN /\ b \in 0..N /\ (b = 0) = (N = 0)
+          /\ t \subseteq Allow
           /\ chain' = ch /\ tags' = t
   /\ open' = TRUE
   /\ UNCHANGED <<pc, wf, py, members, glabels, cache, k, tid, dom>>
@@ -479,7 +498,8 @@ EndClass ==        \* the class statement ends: the visitor has its members, CPy
   /\ pc = "build" /\ open
   /\ (TargetMode => Len(Last(chain).fields) = Len(T[N].fields))
   /\ LET c == Last(chain)
-         r == ProcessClass(py, c)
+         anc == AncSeq(chain, N)
+         r == ProcessClass([x \in 1..Len(anc) |-> py[anc[x]]], c)
      IN /\ py' = Append(py, r)
         /\ wf' = ~r.err
         /\ members' = Append(members, VisitClass(c))
@@ -501,12 +521,12 @@ ApplyRecursively ==
      THEN UNCHANGED <<members, glabels, cache>>          \* guard: "__init__" not in mod_cls.members
      ELSE
        LET guarded == HasMember(members[k], "__init__")            \* only with the labelhand fix: label, nothing else
-           parents == {j \in 1..(k - 1) : Decorated(chain, j)}
+           parents == {j \in Anc(chain, k) : Decorated(chain, j)}
            \* ---- _set_dataclass_init
            \* (the initF fix returns only after the class's own parameters were computed, hence cached:
            \*  _del_members_annotated_as_initvar is about to remove what a subclass will ask for)
            called == IF guarded THEN {} ELSE CalledBy(chain, k)
-           parameters == ConcatParams(chain, 1, k - 1)
+           parameters == ConcatParams(chain, AncSeq(chain, k), 1)
                            \o (IF Decorated(chain, k) THEN CachedParameters(chain, k) ELSE <<>>)
            makeInit == /\ ~guarded /\ Decorated(chain, k)
                        /\ ~(chain[k].hdr.init = "F" /\ "initF" \in Fix)
@@ -568,7 +588,7 @@ StrictSame == (Done /\ wf) => \A i \in 1..N : ImplRes(i) = PyRes(i)
 Enc(ps) == [j \in 1..Len(ps) |-> <<ps[j].name, ps[j].kind, ps[j].hasdef>>]
 EncRes(r) == [own |-> r.own, params |-> Enc(r.params), dataclass |-> r.dataclass]
 CaseRec ==
-  [chain |-> [i \in 1..N |-> [hdr |-> chain[i].hdr,
+  [chain |-> [i \in 1..N |-> [hdr |-> chain[i].hdr, base |-> chain[i].base,
                               fields |-> [j \in 1..Len(chain[i].fields) |-> <<chain[i].fields[j].name, chain[i].fields[j].form>>]]],
    dom |-> dom, tid |-> tid, wf |-> wf, tags |-> tags,
    impl |-> [i \in 1..N |-> EncRes(ImplRes(i))],
